@@ -3,6 +3,7 @@ import WnVerif.Drv.Morphy
 import WnVerif.Drv.Store
 import WnVerif.Drv.Validate
 import WnVerif.Drv.Project
+import WnVerif.Drv.Lmf
 open Lean WnVerif.Drv
 
 def dispatch (j : Json) : Json :=
@@ -14,6 +15,9 @@ def dispatch (j : Json) : Json :=
   | "glob" => opGlob j
   | "trace" => opTrace j
   | "route" => opRoute j
+  | "dump" => opDump j
+  | "load" => opLoad j
+  | "roundtrip" => opRoundtrip j
   | "validate" => opValidate j
   | "ping" => jObj [("pong", jNat 1)]
   | op => jObj [("bad-op", jStr op)]
